@@ -191,6 +191,17 @@ def _body(case, ctx):
             continue
         if len(rows) > 40:
             ctx.note("circuit with > 40 operations")
+        _report(case, ctx, variant, rows)
+        # the same object, re-read after the setting is gone (ambient durations) - a different configuration of the same circuit
+        rows2 = None
+        with ctx.lib(f"{variant}/read times again outside the override"):
+            rows2 = read_schedule(circuit)
+        if rows2 is not None:
+            _report(case, ctx, variant + "+reread_ambient", rows2)
+
+
+def _report(case, ctx, variant, rows):
+    if True:
         last_index = len(rows) - 1
         for kind, a, b in find_overlaps(rows):
             bar = b if b["barrier"] else (a if a["barrier"] else None)
